@@ -1012,6 +1012,14 @@ func (vc *VC) enterLoop(lp *loopInfo, b *ssa.BasicBlock, st *State, edges []inEd
 	lp.wholeHeap = map[string]bool{}
 	for _, m := range ls.Modifies {
 		for _, ml := range env.evalLocs(m) {
+			if ml.isMap {
+				dn, vn, ln, _, _ := vc.d.mapHeaps(ml.mt)
+				k := vc.define("mk", "Int", ml.key)
+				for _, hn := range []string{dn, vn, ln} {
+					lp.frameKeys[hn] = append(lp.frameKeys[hn], k)
+				}
+				continue
+			}
 			if ml.whole {
 				lp.wholeHeap[ml.heap] = true
 			} else {
